@@ -29,9 +29,9 @@ def gen_case(rng):
     if shape == "single":
         pr["streams"] = ss[:1]
     elif shape == "only_hot":
-        pr["streams"] = [s for s in ss if s["t_supply"] > s["t_target"]] or [dict(ss[0], t_supply=200.0, t_target=100.0)]
+        pr["streams"] = [s for s in ss if s["t_supply"] > s["t_target"]] or [dict(ss[0], t_supply=200.0, t_target=100.0, heat_flow=abs(ss[0]["heat_flow"]))]
     elif shape == "only_cold":
-        pr["streams"] = [s for s in ss if s["t_supply"] < s["t_target"]] or [dict(ss[0], t_supply=100.0, t_target=200.0)]
+        pr["streams"] = [s for s in ss if s["t_supply"] < s["t_target"]] or [dict(ss[0], t_supply=100.0, t_target=200.0, heat_flow=abs(ss[0]["heat_flow"]))]
     elif shape == "isothermal":
         for s in ss:
             if rng.random() < 0.6:
